@@ -496,30 +496,53 @@ func (r *row) IterValues() func() (string, Value, bool) {
 }
 
 func (r *row) MapTo(v interface{}) {
-	t := reflect.TypeOf(v).Elem()
+	target := reflect.ValueOf(v)
+	if target.Kind() != reflect.Ptr || target.IsNil() || target.Elem().Kind() != reflect.Struct {
+		return
+	}
+
+	elem := target.Elem()
+	t := elem.Type()
 
 	for i := 0; i < t.NumField(); i++ {
-		field := t.Field(i)
+		field := elem.Field(i)
+		if !field.CanSet() {
+			continue
+		}
 
-		value, exist := r.Get(LcFirst(field.Name))
+		value, exist := r.Get(LcFirst(t.Field(i).Name))
 		if exist {
-			switch val := value.(type) {
-			case int, int64, int32, int16, int8:
-				i, _ := cast.ToInt64(val)
-				reflect.ValueOf(v).Elem().FieldByName(field.Name).SetInt(i.(int64))
-			case uint, uint64, uint32, uint16, uint8:
-				i, _ := cast.ToUint64(val)
-				reflect.ValueOf(v).Elem().FieldByName(field.Name).SetUint(i.(uint64))
-			case float32, float64:
-				i, _ := cast.ToFloat64(val)
-				reflect.ValueOf(v).Elem().FieldByName(field.Name).SetFloat(i.(float64))
-			case string:
-				reflect.ValueOf(v).Elem().FieldByName(field.Name).SetString(val)
-			case bool:
-				reflect.ValueOf(v).Elem().FieldByName(field.Name).SetBool(val)
-			case []byte:
-				reflect.ValueOf(v).Elem().FieldByName(field.Name).SetBytes(val)
-			}
+			mapToField(field, value)
+		}
+	}
+}
+
+// mapToField stores value in field when the kind of the field can hold it.
+func mapToField(field reflect.Value, value interface{}) {
+	switch val := value.(type) {
+	case int, int64, int32, int16, int8:
+		if i, _ := cast.ToInt64(val); field.Kind() >= reflect.Int && field.Kind() <= reflect.Int64 {
+			field.SetInt(i.(int64)) //nolint:forcetypeassert
+		}
+	case uint, uint64, uint32, uint16, uint8:
+		if i, _ := cast.ToUint64(val); field.Kind() >= reflect.Uint && field.Kind() <= reflect.Uintptr {
+			field.SetUint(i.(uint64)) //nolint:forcetypeassert
+		}
+	case float32, float64:
+		if i, _ := cast.ToFloat64(val); field.Kind() == reflect.Float32 || field.Kind() == reflect.Float64 {
+			field.SetFloat(i.(float64)) //nolint:forcetypeassert
+		}
+	case string:
+		if field.Kind() == reflect.String {
+			field.SetString(val)
+		}
+	case bool:
+		if field.Kind() == reflect.Bool {
+			field.SetBool(val)
+		}
+	case []byte:
+		if field.Kind() == reflect.Slice && field.Type().Elem().Kind() == reflect.Uint8 {
+			field.SetBytes(val)
 		}
 	}
 }
